@@ -364,6 +364,31 @@ def sweep_texts(groups=None):
     return uniq
 
 
+def small_expressions(max_ops, leaves=("x", "y", "2", "-1", "0", "0.5"), ops=("+", "-", "*", "/", "^")):
+    """Bounded-exhaustive: every expression with <= max_ops binary operators over the given leaves,
+    rendered with explicit parentheses (so the text means exactly the enumerated tree)."""
+    import functools
+
+    @functools.lru_cache(maxsize=None)
+    def exprs(k):
+        if k == 0:
+            return tuple(leaves)
+        out = []
+        for i in range(k):
+            for l in exprs(i):
+                for r in exprs(k - 1 - i):
+                    lt = l if i == 0 and not l.startswith("-") else f"({l})"
+                    rt = r if k - 1 - i == 0 and not r.startswith("-") else f"({r})"
+                    for op in ops:
+                        out.append(f"{lt} {op} {rt}" if op != "^" else f"{lt}^{rt}")
+        return tuple(out)
+
+    res = []
+    for k in range(1, max_ops + 1):
+        res.extend(exprs(k))
+    return res
+
+
 def tree_text(max_nodes=12):
     """Text for G-tree: grammar ASTs, rule-shaped templates in context, repository examples."""
     inputs = harvested_inputs() or _FALLBACK_INPUTS
